@@ -198,6 +198,11 @@ type vfWireScen struct {
 	Env         []string       `json:"env"`     // extra environment of the sx process
 	Routes      [][]string     `json:"routes"`  // `ip route add ...` before the run, deleted afterwards
 	SigintConnMS int           `json:"sigintConnMs"` // send SIGINT this long after the first connection reached a server (0: never)
+	StdinFile   bool           `json:"stdinFile"`   // standard input is a regular file with the content of Stdin (not a pipe)
+	StdoutTo    string         `json:"stdoutTo"`    // standard output is this file (e.g. /dev/full); nothing is read back
+	SlowStdout  bool           `json:"slowStdout"`  // standard output is a pipe whose reader takes 2 KB every 2 ms
+	FlapAfter   int            `json:"flapAfter"`   // after this many probes the interface of sx goes down ...
+	FlapDownMS  int            `json:"flapDownMs"`  // ... for this long, then up again
 }
 
 func vfIsProbe(b []byte, myMAC net.HardwareAddr) bool {
@@ -309,7 +314,41 @@ func TestVfWire(t *testing.T) {
 		cmd := exec.Command(sx, args...)
 		var stdout, stderr bytes.Buffer
 		cmd.Stdout, cmd.Stderr = &stdout, &stderr
-		if sc.Stdin != "" {
+		var slowDone chan struct{}
+		var slowW *os.File
+		switch {
+		case sc.StdoutTo != "":
+			f, err := os.OpenFile(sc.StdoutTo, os.O_WRONLY, 0)
+			must(err)
+			defer f.Close()
+			cmd.Stdout = f
+		case sc.SlowStdout:
+			pr, pw, err := os.Pipe()
+			must(err)
+			cmd.Stdout, slowW = pw, pw
+			slowDone = make(chan struct{})
+			go func() {
+				defer close(slowDone)
+				buf := make([]byte, 2048)
+				for {
+					n, err := pr.Read(buf)
+					stdout.Write(buf[:n])
+					if err != nil {
+						pr.Close()
+						return
+					}
+					time.Sleep(2 * time.Millisecond)
+				}
+			}()
+		}
+		if sc.Stdin != "" && sc.StdinFile {
+			p := dir + "/stdin.txt"
+			must(os.WriteFile(p, []byte(sc.Stdin), 0o644))
+			f, err := os.Open(p)
+			must(err)
+			defer f.Close()
+			cmd.Stdin = f
+		} else if sc.Stdin != "" {
 			cmd.Stdin = strings.NewReader(sc.Stdin)
 		}
 		if len(sc.Env) > 0 {
@@ -347,7 +386,17 @@ func TestVfWire(t *testing.T) {
 		exited := make(chan struct{})
 		var exitAt time.Time
 		var exitErr error
-		go func() { exitErr = cmd.Wait(); exitAt = time.Now(); close(exited) }()
+		go func() {
+			exitErr = cmd.Wait()
+			exitAt = time.Now()
+			if slowW != nil { // the process is gone: the write end of its stdout closes, the slow reader drains what is in the pipe
+				slowW.Close()
+				<-slowDone
+			}
+			close(exited)
+		}()
+		flapped := false
+		flapAt := 0
 		injected := make([]bool, len(sc.Inject))
 		injectAt := make([]int, len(sc.Inject))
 		sigint := false
@@ -392,6 +441,13 @@ func TestVfWire(t *testing.T) {
 				default:
 					close(floodStop)
 				}
+			}
+			if sc.FlapAfter > 0 && !flapped && np >= sc.FlapAfter {
+				flapped = true
+				flapAt = int(time.Since(t0) / time.Microsecond)
+				_ = vfIP("link", "set", "vfw0", "down")
+				time.Sleep(time.Duration(sc.FlapDownMS) * time.Millisecond)
+				_ = vfIP("link", "set", "vfw0", "up")
 			}
 			if sc.SigintAfter > 0 && !sigint && np >= sc.SigintAfter {
 				sigint = true
@@ -482,7 +538,7 @@ func TestVfWire(t *testing.T) {
 		lmu.Unlock()
 		return map[string]interface{}{"ev": "WireRun", "id": sc.ID, "name": sc.Name, "args": sc.Args, "probes": probes, "noise": noise, "drops": drops,
 			"injected": inj, "stdout": lines, "stdoutComplete": complete, "stderr": errLines, "exit": code, "exitT": int(exitAt.Sub(t0) / time.Microsecond),
-			"killed": killed, "sigintT": sigintAt, "floodN": floodN, "conns": cs, "panic": strings.Contains(stderr.String(), "panic:") || strings.Contains(stderr.String(), "SIGSEGV") || strings.Contains(stderr.String(), "fatal error")}
+			"killed": killed, "flapT": flapAt, "sigintT": sigintAt, "floodN": floodN, "conns": cs, "panic": strings.Contains(stderr.String(), "panic:") || strings.Contains(stderr.String(), "SIGSEGV") || strings.Contains(stderr.String(), "fatal error")}
 	}
 }
 
@@ -516,6 +572,9 @@ func vfWireServe(c net.Conn, mode string) {
 			return
 		}
 		body := `{"name":"vf","cluster_name":"vf","ID":"vf","Version":"1","ApiVersion":"1.41","version":{"number":"7.0.0"}}`
+		if mode == "bigjson" {
+			body = `{"name":"` + strings.Repeat("x", 400000) + `","cluster_name":"vf"}`
+		}
 		fmt.Fprintf(c, "HTTP/1.1 200 OK\r\nContent-Type: application/json\r\nContent-Length: %d\r\nConnection: close\r\n\r\n%s", len(body), body)
 	}
 }
